@@ -183,6 +183,8 @@ fn check(case: &Case, st: &mut Stats) -> Vec<Violation> {
     let n_conn = case.script.conns.len();
     let mut healthy_frames = 0;
     let mut fault_conns = 0;
+    let mut ever_stale: std::collections::BTreeSet<u32> = Default::default();
+    let mut any_unjudged_run = false;
     let filter = case.script.filter();
     let passes = |df: u32| filter.as_ref().map(|f| f.contains(&df)).unwrap_or(true);
     for (i, s) in h.steps.iter().enumerate() {
@@ -200,6 +202,9 @@ fn check(case: &Case, st: &mut Stats) -> Vec<Violation> {
                 st.probe("filtered_frame_seen"); // excluded by -f: must change nothing (containment below)
             } else if c.accepted && c.judged {
                 let a = c.addr.unwrap();
+                // whoever looks expired when a frame is processed may be swept by it (the frame's own aircraft
+                // included: an earlier frame of the same read may have done it)
+                for (b, _) in model.last.iter() { if model.maybe_stale(*b, s.t_us) { ever_stale.insert(*b); } }
                 model.accept(a, s.t_us);
                 touched.push(a);
                 if s.conn + 1 == n_conn { healthy_frames += 1; }
@@ -210,7 +215,8 @@ fn check(case: &Case, st: &mut Stats) -> Vec<Violation> {
                 if refm::hex_digits(l).len() == 14 { st.probe("partial_exactly_14_digits"); }
             }
         }
-        if any_unjudged { continue; }
+        for (a, _) in model.last.iter() { if model.maybe_stale(*a, s.t_us) { ever_stale.insert(*a); } }
+        if any_unjudged { any_unjudged_run = true; continue; }
         st.oracle_evals += 1;
         if let StepKind::Err(_) = s.kind { if s.dropped_partial.is_some() { st.probe("reset_mid_line"); } }
         // containment: nothing accepted in this step => nothing may change
@@ -248,6 +254,35 @@ fn check(case: &Case, st: &mut Stats) -> Vec<Violation> {
             }
         }
         if !v.is_empty() { break; }
+    }
+    // what was learned survives: the row of an aircraft that never looked expired equals its row after the very
+    // same lines, delivered at the very same instants over a single healthy connection (no fault in between)
+    if v.is_empty() && fault_conns > 0 && !any_unjudged_run && matches!(h.outcome, Outcome::SimEnd) {
+        let mut ops = vec![];
+        let mut prev = exec::T0_US;
+        for s in &h.steps {
+            if s.lines.is_empty() { continue; }
+            let mut b = vec![];
+            for l in &s.lines { b.extend_from_slice(l); b.push(b'\n'); }
+            ops.push(Op::Data { dt_us: s.t_us - prev, bytes: Bytes(b), tag: "replayed".into() });
+            prev = s.t_us;
+        }
+        let mut healthy = case.script.clone();
+        healthy.conns = vec![Conn::Accept { ops }];
+        let hh = exec::run(&healthy);
+        st.executions += 1;
+        if matches!(hh.outcome, Outcome::SimEnd) {
+            for (a, r_faulty) in h.final_table.iter() {
+                if ever_stale.contains(a) || model.maybe_stale(*a, h.end_t_us) { continue; }
+                if let Some(r_healthy) = hh.final_table.get(a) {
+                    st.probe("row_compared_with_fault_free_replay");
+                    if r_faulty != r_healthy {
+                        v.push(viol("C18.table-lost", last, format!("row {:06X} after the interrupted feed differs from its row after the same lines over one healthy connection (healthy -> interrupted): {}", a, diff_fields(r_healthy, r_faulty).join("; ")), json!({"replayed": true})));
+                        break;
+                    }
+                }
+            }
+        }
     }
     if fault_conns > 0 && healthy_frames > 0 {
         st.nontrivial_runs += 1;
